@@ -48,6 +48,8 @@ func (r *NativeResult) signature(harness string) string {
 		return "panic:" + r.Site + ":" + normMsg(r.Msg)
 	case "hang":
 		return "hang:" + harness
+	case "race":
+		return "race:" + r.Msg
 	case "crash":
 		return "crash:" + normMsg(r.Msg)
 	}
@@ -73,6 +75,27 @@ func buildReplayBinary(pkg string) (string, error) {
 	return out, nil
 }
 
+// buildRaceBinary: the same test binary with the race detector (only needed to confirm a predicted race).
+func buildRaceBinary(pkg string) (string, error) {
+	out := filepath.Join(workDir(), pkg+".race.test")
+	cmd := exec.Command("go", "test", "-c", "-race", "-vet=off", "-o", out, "./"+pkg)
+	cmd.Dir = harnessDir()
+	env := []string{}
+	for _, e := range goEnv() {
+		if e != "CGO_ENABLED=0" {
+			env = append(env, e)
+		}
+	}
+	cmd.Env = append(env, "CGO_ENABLED=1")
+	b, err := cmd.CombinedOutput()
+	if err != nil {
+		return "", fmt.Errorf("go test -c -race ./%s: %v\n%s", pkg, err, b)
+	}
+	return out, nil
+}
+
+var raceBin string
+
 // runBatch runs vectors natively; results are keyed by vector ID.
 func runBatch(bin string, vecs []*Vector, perVec time.Duration) map[int]*NativeResult {
 	res := map[int]*NativeResult{}
@@ -82,6 +105,21 @@ func runBatch(bin string, vecs []*Vector, perVec time.Duration) map[int]*NativeR
 	// predicted hangs are run one at a time with a short deadline
 	var pending []*Vector
 	for _, v := range vecs {
+		if v.Predicted != nil && v.Predicted.Outcome == "race" {
+			if raceBin == "" {
+				rb, err := buildRaceBinary(strings.ToLower(v.Property))
+				if err != nil {
+					fmt.Fprintln(os.Stderr, "ENGINE-ERROR:", err)
+					res[v.ID] = &NativeResult{ID: v.ID, Outcome: "vector", Msg: "cannot build the race binary"}
+					continue
+				}
+				raceBin = rb
+			}
+			for k, r := range runOne(raceBin, v, 120*time.Second) {
+				res[k] = r
+			}
+			continue
+		}
 		if v.Predicted != nil && v.Predicted.Outcome == "hang" {
 			for k, r := range runOne(bin, v, 5*time.Second) {
 				res[k] = r
@@ -144,6 +182,38 @@ func runBatch(bin string, vecs []*Vector, perVec time.Duration) map[int]*NativeR
 	return res
 }
 
+// raceSummary: the innermost plush frames of the two accesses of the first report
+func raceSummary(out string) string {
+	var fns []string
+	lines := strings.Split(out, "\n")
+	for i, l := range lines {
+		if strings.HasPrefix(l, "Write at") || strings.HasPrefix(l, "Read at") || strings.HasPrefix(l, "Previous write at") || strings.HasPrefix(l, "Previous read at") {
+			for _, m := range lines[i+1:] {
+				m = strings.TrimSpace(m)
+				if m == "" {
+					break
+				}
+				if strings.Contains(m, "gobuffalo/plush") && strings.HasSuffix(m, "()") && !strings.HasPrefix(m, "/") {
+					fn := strings.TrimSuffix(m, "()")
+					if k := strings.LastIndex(fn, "/"); k >= 0 {
+						fn = fn[k+1:]
+					}
+					fns = append(fns, strings.TrimPrefix(strings.SplitN(l, " at", 2)[0], "Previous ")+" in "+fn)
+					break
+				}
+			}
+		}
+		if len(fns) == 2 {
+			break
+		}
+	}
+	for i := range fns {
+		fns[i] = strings.ToLower(fns[i][:1]) + fns[i][1:]
+	}
+	sort.Strings(fns)
+	return strings.Join(fns, " / ")
+}
+
 func runOne(bin string, v *Vector, d time.Duration) map[int]*NativeResult {
 	res := map[int]*NativeResult{}
 	f := filepath.Join(workDir(), fmt.Sprintf("one-%d-%d.json", os.Getpid(), time.Now().UnixNano()))
@@ -158,6 +228,10 @@ func runOne(bin string, v *Vector, d time.Duration) map[int]*NativeResult {
 	out, _ := cmd.CombinedOutput()
 	if ctx.Err() != nil {
 		res[v.ID] = &NativeResult{ID: v.ID, Outcome: "hang", Msg: "the native run did not return within " + d.String()}
+		return res
+	}
+	if strings.Contains(string(out), "WARNING: DATA RACE") {
+		res[v.ID] = &NativeResult{ID: v.ID, Outcome: "race", Msg: raceSummary(string(out))}
 		return res
 	}
 	for _, line := range strings.Split(string(out), "\n") {
@@ -314,6 +388,11 @@ func runCheck(o *checkOpts) int {
 			return 3
 		}
 		defer os.Remove(bin)
+		defer func() {
+			if raceBin != "" {
+				os.Remove(raceBin)
+			}
+		}()
 		var cands []*Vector
 		id := 1
 		sigs := make([]string, 0, len(res.viols.bySig))
